@@ -159,7 +159,35 @@ def interp1d_contract_case(n):
     )
 
 
+def loco_engine_off_case(kind, n=2):
+    """the locomotive-level clause: a unit whose engine is commanded off consumes no fuel and no auxiliary power in that step
+    (the sequence LocomotiveSimulation::solve_step drives, from an arbitrary pre-state incl. a loaded previous step)"""
+    P = "loco_type.ConventionalLoco." if kind == "conv" else "loco_type.BatteryElectricLoco."
+
+    def assume(S):
+        d = loco_domain(S, kind, "", n) + [("dt > 0", S["dt"] > 0), ("the engine is commanded off in this step", S["engine_on"] == False)]  # noqa: E712
+        if kind == "conv":
+            d.append(("previous shaft power >= 0", S["fc_s_pwr_brake"] >= 0))
+        return d
+
+    claims = [Claim("engine off: the locomotive books no auxiliary power", lambda c: EQ(c.post["state.pwr_aux"], 0), role="engine_off_no_aux"),
+              Claim("engine off: auxiliary energy does not grow", lambda c: EQ(c.post["state.energy_aux"], c.pre["state.energy_aux"]), role="engine_off_no_aux_energy")]
+    if kind == "conv":
+        claims += [Claim("engine off: no fuel", lambda c: EQ(c.post[P + "fc.state.pwr_fuel"], 0), role="engine_off_no_fuel"),
+                   Claim("engine off: the generator carries no auxiliary load", lambda c: EQ(c.post[P + "gen.state.pwr_elec_aux"], 0), role="engine_off_no_gen_aux")]
+    else:
+        claims += [Claim("engine off: the battery supplies no auxiliary power", lambda c: EQ(c.post[P + "res.state.pwr_aux"], 0), role="engine_off_no_res_aux")]
+    claims.append(Claim("no_panic", None, when="nopanic"))
+    return Case(f"{kind}_loco_engine_off_n{n}", "C08", "Locomotive", loco_tmpl(kind, "", n), LOCO_STEP(), assume, claims,
+                bounds={"locomotive": kind, "efficiency map points": n, "steps": "1 solve_step sequence with engine_on = false from an arbitrary pre-state"},
+                stubs={"utils::interp1d": interp1d_contract, "utils::interp3d": interp3d_contract}, max_paths=20000, timeout_ms=60000, expect_ok=True, check_side=False)
+
+
 def m_cases(tier):
+    return _m_cases(tier) + [loco_engine_off_case("conv"), loco_engine_off_case("bel")]
+
+
+def _m_cases(tier):
     cs = [fc_case(3), gen_case(3), edrv_case(3), res_case(2, 2), interp3d_contract_case(1, 2, 2), interp1d_contract_case(3)]
     if tier == "thorough":
         cs += [fc_case(2), fc_case(4), gen_case(4), edrv_case(4), res_case(3, 2), res_case(2, 3),
